@@ -246,6 +246,86 @@ def systematic(ctx, conf, tmpdir):
             ctx.count("systematic_pipelines_fully_enumerated")
 
 
+def huge_stop(ctx, tmpdir):
+    """the stop arrives while one worker is more than 16384 messages behind."""
+    import gc
+
+    from ..sched import strategies as SS
+
+    rng = ctx.rng("huge")
+    nblocks = 16600 + rng.randint(0, 200)
+    case = P.small_pipeline_case(rng, 4, ["rec"], True)
+    case.update(block=1, w=1 / 8, rate=8, width=1, channels=1, thr=20.0, min_len=1, max_len=2, max_sil=0, partial=0)
+    case["v"] = [1 if (i // 5) % 2 else 0 for i in range(nblocks)]
+    case["saver"] = {"cache_size_sec": 100000.0}
+    case["stop"] = {"after_reads": nblocks - rng.randint(20, 80), "extra_steps": 0}
+    case["strategy"] = "starve(saver)"
+    built = AC.build_audio(case)
+    if built is None:
+        return
+    P.clean_dir(tmpdir)
+    res = P.run_pipeline(case, built[0], tmpdir, strategy=SS.Starve(rng.getrandbits(32), timeout_budget=0, victim=1))
+    ctx.count("huge_stop_runs")
+    ctx.count("scheduled_runs")
+    ctx.maxi("saver_backlog_at_some_point", res.sched.max_queue_depth)
+    ctx.case(stable_hash(["huge-stop", nblocks, res.sched.steps]), True)
+    check_run(ctx, dict(case, v=[1, 0, 1], note=f"{nblocks} one-sample blocks"), built[0], res, tmpdir)
+
+
+def unencodable_stop(ctx, tmpdir):
+    """-O rec.ogg with no encoder installed, stopped mid-stream: the wav that was written must outlive the worker objects."""
+    import gc
+    import time as _t
+
+    import auditok.workers as W_
+
+    rng = ctx.rng("ogg")
+    rate, width, channels, block = 8000, 2, 1, 400
+    data = rng.randbytes(60 * block * width * channels)
+
+    class Slow(auditok.AudioReader):
+        n = 0
+
+        def read(self):
+            Slow.n += 1
+            if Slow.n > 25:
+                _t.sleep(0.01)
+            return super().read()
+
+    path = os.path.join(tmpdir, "rec.ogg")
+    reader = Slow(data, block_dur=block / rate, sr=rate, sw=width, ch=channels)
+    saver = W_.StreamSaverWorker(reader, filename=path)
+    saver.start()
+    tw = W_.TokenizerWorker(saver, [], min_dur=0.1, max_dur=1, max_silence=0.1, energy_threshold=40)
+    tw.start_all()
+    deadline = _t.monotonic() + 30
+    while Slow.n < 30 and _t.monotonic() < deadline:
+        _t.sleep(0.002)
+    tw.stop_all()
+    saver.join(30)
+    told = None
+    try:
+        saver.export_audio()
+    except Exception as exc:
+        told = str(exc)
+    nread = Slow.n
+    del saver, tw, reader
+    gc.collect()
+    ctx.count("unencodable_stop_runs")
+    ctx.case(("unencodable-stop", nread), True)
+    kept = [f for f in os.listdir(tmpdir) if f.startswith("rec.ogg")]
+    ok = False
+    for f in kept:
+        try:
+            fr = P.wav_read(os.path.join(tmpdir, f))[0]
+            if fr and data.startswith(fr):
+                ok = True
+        except Exception:
+            pass
+    if not ok:
+        ctx.violation("saved-stream-gone-after-failed-export", {"case": {"export": "rec.ogg (no encoder installed), stopped mid-stream"}, "files_left": kept, "tool_said": (told or "")[:200]})
+
+
 # ---- command-line level: SIGINT on a real child process ------------------------------------------
 def sigint_child(ctx, rng, tmpdir, idx):
     rate = rng.choice((8000, 16000))
@@ -374,6 +454,10 @@ def run_shard(ctx):
         n_children = [i for i in range(conf["sigint"]) if ctx.mine(i)]
         for i in n_children:
             check_sigint(ctx, sigint_child(ctx, rng, tmpdir, i), i)
+        if ctx.shard == 7 or (ctx.tier == "thorough" and ctx.shard in (8, 9, 10)):
+            huge_stop(ctx, tmpdir)
+        if ctx.shard == 9:
+            unencodable_stop(ctx, tmpdir)
         systematic(ctx, conf, tmpdir)
         enumerate_stops(ctx, conf, tmpdir)
         # the stop arrives while the stream saver is far behind the reader (its thread is starved)
@@ -451,7 +535,7 @@ def inconclusive(merged, tier):
     c = merged["counters"]
     need = ["scheduled_runs", "stop_points_enumerated", "streams_with_every_stop_point_covered", "stops_before_stream_end",
             "stops_with_a_read_in_flight", "observer_logs_checked", "saved_streams_checked", "joiner_files_checked",
-            "line_mode_runs", "sigint_children_checked", "timeouts_fired", "systematic_schedules", "systematic_pipelines_fully_enumerated", "stops_after_an_injected_source_fault", "lagging_saver_runs"]
+            "line_mode_runs", "sigint_children_checked", "timeouts_fired", "systematic_schedules", "systematic_pipelines_fully_enumerated", "stops_after_an_injected_source_fault", "lagging_saver_runs", "huge_stop_runs", "unencodable_stop_runs"]
     out = [f"monitor never observed {k}" for k in need if c.get(k, 0) == 0]
     if c.get("inconclusive_runs", 0) > max(3, c.get("scheduled_runs", 0) // 50):
         out.append(f"{c['inconclusive_runs']} runs hit a step/wall cap or the sigint driver's watchdog")
